@@ -100,7 +100,7 @@ class C07(Prop):
                    "entropies use natural logarithm of normalised spectra (calc_vn_entropy)", "tolerance 1e-9*scale"]
 
     def budget(self, tier):
-        return dict(examples=500, shards=16) if tier == "quick" else dict(examples=20000, shards=16)
+        return dict(examples=1000, shards=16) if tier == "quick" else dict(examples=60000, shards=16)
 
     def strategy(self, tier):
         return cases(tier)
